@@ -80,6 +80,9 @@ class Documenter(object):
         self.lexer: CMakeLexer = CMakeLexer(self.input_stream)
         """The lexer used to generate the token stream."""
 
+        # Characters the lexer cannot match are errors too, not something to skip
+        self.lexer.addErrorListener(ParserErrorListener())
+
         self.stream: TokenStream = CommonTokenStream(self.lexer)
         """The stream of tokens from the lexer, should be passed to the parser."""
 
